@@ -72,7 +72,12 @@ def gen(variant, repo, out):
 def run_one(crate, harness, timeout, target):
     env = dict(os.environ, CARGO_NET_OFFLINE="true", CARGO_TARGET_DIR=target)
     t0 = time.time()
-    r = subprocess.run(["bash", os.path.join(KDIR, "run_harness.sh"), crate, harness, str(timeout)], env=env, stdout=subprocess.PIPE, stderr=subprocess.PIPE, text=True)
+    # one cargo-kani at a time per target directory, also across concurrently running checks (scratch runs of the seeded corpus)
+    import fcntl
+    os.makedirs(target, exist_ok=True)
+    with open(target + ".lock", "w") as lk:
+        fcntl.flock(lk, fcntl.LOCK_EX)
+        r = subprocess.run(["bash", os.path.join(KDIR, "run_harness.sh"), crate, harness, str(timeout)], env=env, stdout=subprocess.PIPE, stderr=subprocess.PIPE, text=True)
     line = (r.stdout.strip().splitlines() or [""])[-1]
     parts = [p.strip() for p in line.split("|")]
     verdict = parts[1] if len(parts) > 1 else "ERROR"
